@@ -176,7 +176,7 @@ Proof.
   destruct p1 as [s1|], p2 as [s2|]; cbn [scope_normal] in Hp1, Hp2.
   - destruct Hp1 as [Hw1 [Hb1 Hm1]]. destruct Hp2 as [Hw2 [Hb2 Hm2]].
     apply N.eqb_neq in Hb1, Hb2. rewrite Hb1, Hb2 in He. cbn [pre_keywithprefix] in He.
-    rewrite !map_fold_keypfx in He. apply Hsplit in He. destruct He as [Hh He].
+    unfold fold_key, fold_keypfx in He; fold (fold n1) in He; fold (fold n2) in He. apply Hsplit in He. destruct He as [Hh He].
     change keypfx_fam4 with 4 in He. change keypfx_fam6 with 6 in He.
     change keypfx_round_add with 7 in He. change keypfx_round_div with 8 in He.
     unfold scope_suffix in He. cbn [app] in He.
@@ -184,14 +184,14 @@ Proof.
     destruct He as [Hn [Hf Hr]]. repeat split; try tauto. f_equal.
     apply scope_suffix_inj; try assumption. unfold scope_suffix. cbn [app]. rewrite Hf, Hr. reflexivity.
   - destruct Hp1 as [Hw1 [Hb1 Hm1]]. apply N.eqb_neq in Hb1. rewrite Hb1 in He. cbn [pre_keywithprefix] in He.
-    unfold pre_key in He. rewrite map_fold_keypfx, map_fold_key in He. apply Hsplit in He. destruct He as [_ He].
+    unfold pre_key in He. unfold fold_key, fold_keypfx in He; fold (fold n1) in He; fold (fold n2) in He. apply Hsplit in He. destruct He as [_ He].
     change keypfx_fam4 with 4 in He. change keypfx_fam6 with 6 in He. unfold scope_suffix in He. cbn [app] in He.
     exfalso. eapply no_marker_in_clean; [exact G2| |exact He]. destruct (sc_is4 s1); lia.
   - destruct Hp2 as [Hw2 [Hb2 Hm2]]. apply N.eqb_neq in Hb2. rewrite Hb2 in He. cbn [pre_keywithprefix] in He.
-    unfold pre_key in He. rewrite map_fold_keypfx, map_fold_key in He. apply Hsplit in He. destruct He as [_ He].
+    unfold pre_key in He. unfold fold_key, fold_keypfx in He; fold (fold n1) in He; fold (fold n2) in He. apply Hsplit in He. destruct He as [_ He].
     change keypfx_fam4 with 4 in He. change keypfx_fam6 with 6 in He. unfold scope_suffix in He. cbn [app] in He.
     exfalso. symmetry in He. eapply no_marker_in_clean; [exact G1| |exact He]. destruct (sc_is4 s2); lia.
-  - unfold pre_key in He. rewrite !map_fold_key in He. apply Hsplit in He. destruct He as [Hh He]. tauto.
+  - unfold pre_key in He. unfold fold_key, fold_keypfx in He; fold (fold n1) in He; fold (fold n2) in He. apply Hsplit in He. destruct He as [Hh He]. tauto.
 Qed.
 
 (* /22 vs /24 of one address, and v4 vs v6 with the same leading bytes, have different preimages *)
